@@ -118,12 +118,56 @@ def _ad_parse_guard(pre):
     return Sub(pre, 'subcon').ok
 
 
-# Adapter._parse = _decode(subcon parse); Adapter._build = subcon build(_encode(obj)) and returns the ORIGINAL obj
-fcontract('Adapter', '_build', [
-    Case('ok', 'return', lambda pre: t.TRUE, rkind=rk_dyn, modifies=['stream'],
-         ensures=lambda pre, post: [('returns-the-value-it-was-given', t.eq(post.eng.to_dyn(post.result, post.st), pre['obj'].t), ('C01', 'C02', 'C13'))]),
-    Case('fails', 'raise', lambda pre: t.TRUE, modifies=['stream']),
-], tags=('C01', 'C02', 'C13'), sub_seq=True)
+# Adapter._parse = _decode(subcon parse); Adapter._build = subcon build(_encode(obj)) and returns the ORIGINAL obj.
+# The hooks are abstract in Adapter: they are named by the interface functions K_ok / K_val / K_exc (kind 0 = decode, 1 = encode).
+for _fn, _srt in (('K_ok', t.BOOL), ('K_val', t.VAL), ('K_exc', t.INT)):
+    prelude.declare_fun(_fn, [t.INT, t.INT, t.VAL, 'Heap', 'Dom', t.INT], _srt)
+
+
+def hook(pre, kind, val, H=None, D=None):
+    a = (I(kind), pre.self.ident, val, H if H is not None else pre.st.ghost['H'], D if D is not None else pre.st.ghost['D'], pre.obj('context').addr)
+    return t.app('K_ok', t.BOOL, *a), t.app('K_val', t.VAL, *a)
+
+
+def _ad_parse_guard2(pre):
+    s = Sub(pre, 'subcon')
+    return t.and_(s.ok, hook(pre, 0, s.val, s.H, s.D)[0])
+
+
+def _ad_parse_ok(pre, post):
+    s = Sub(pre, 'subcon')
+    o2 = post.obj('stream')
+    return [('returns-the-decode-hook-applied-to-what-the-inner-construct-parsed', result_is(post, hook(pre, 0, s.val, s.H, s.D)[1]), ('C13', 'C03', 'C01')),
+            ('consumes-what-the-inner-construct-consumed', t.eq(o2.pos, s.end), ('C03',))]
+
+
+def _ad_encoded(pre):
+    return hook(pre, 1, pre['obj'].t)
+
+
+def _ad_bsub(pre):
+    return Sub(pre, 'subcon', obj=_ad_encoded(pre)[1], kind='build')
+
+
+def _ad_build_ok(pre, post):
+    o, o2 = S_(pre), post.obj('stream')
+    s = _ad_bsub(pre)
+    from .wrappers import _written
+    return [('returns-the-value-it-was-given', t.eq(post.eng.to_dyn(post.result, post.st), pre['obj'].t), ('C01', 'C02', 'C13')),
+            ('the-inner-construct-builds-the-encode-hook-of-the-value', t.eq(o2.pos, t.add(o.pos, s.len)), ('C13', 'C03')),
+            _written(o, o2, s.len, lambda i: t.select(s.bytes, i), 'emits-exactly-the-inner-encoding-of-the-encoded-value')]
+
+
+_a1 = fcontract('Adapter', '_parse', [
+    Case('ok', 'return', _ad_parse_guard2, ensures=_ad_parse_ok, rkind=rk_dyn, modifies=['stream']),
+    Case('fails', 'raise', lambda pre: t.not_(_ad_parse_guard2(pre)), ensures=generic_raise, modifies=['stream']),
+], tags=('C13', 'C03', 'C01'), sub_seq=True)
+_a2 = fcontract('Adapter', '_build', [
+    Case('ok', 'return', lambda pre: t.and_(_ad_encoded(pre)[0], _ad_bsub(pre).ok), ensures=_ad_build_ok, rkind=rk_dyn, modifies=['stream']),
+    Case('fails', 'raise', lambda pre: t.not_(t.and_(_ad_encoded(pre)[0], _ad_bsub(pre).ok)), modifies=['stream']),
+], tags=('C01', 'C02', 'C13', 'C03'), sub_seq=True)
+for _c in (_a1, _a2):
+    _c.iface = dict(_c.iface or {}, hooks_as_functions=True)
 
 
 # ------------------------------------------------------------------------------------------------ FlagsEnum._decode (C13)
